@@ -551,3 +551,54 @@ func VerifC18Enqueue() {
 	}
 	verifrt.Reach("enqueued")
 }
+
+// ---- handler registration on informers created later ------------------------------------------------------------
+
+type vRegInformer struct {
+	cache.SharedIndexInformer // nil: only AddEventHandler is used
+	added                     int
+	failAt                    int // fail the k-th registration (1-based), 0 = never
+}
+
+func (v *vRegInformer) AddEventHandler(cache.ResourceEventHandler) (cache.ResourceEventHandlerRegistration, error) {
+	v.added++
+	if v.added == v.failAt {
+		return nil, errStart
+	}
+	return nil, nil
+}
+
+type vNopHandler struct{}
+
+func (vNopHandler) Create(context.Context, event.CreateEvent, workqueue.TypedRateLimitingInterface[reconcile.Request]) {
+}
+func (vNopHandler) Update(context.Context, event.UpdateEvent, workqueue.TypedRateLimitingInterface[reconcile.Request]) {
+}
+func (vNopHandler) Delete(context.Context, event.DeleteEvent, workqueue.TypedRateLimitingInterface[reconcile.Request]) {
+}
+func (vNopHandler) Generic(context.Context, event.GenericEvent, workqueue.TypedRateLimitingInterface[reconcile.Request]) {
+}
+
+// VerifC12Handlers: every controller that asked the cache for an event source before the manager started gets its
+// handler registered on every informer the cache creates later; a registration failure is reported, not swallowed.
+func VerifC12Handlers() {
+	src := &cacheSource{}
+	n := verifrt.IntRange("nControllers", 0, verifrt.Bound("maxControllers", 3))
+	for k := 0; k < n; k++ {
+		s := src.Source(vNopHandler{})
+		err := s.Start(context.Background(), &vQueue{})
+		verifrt.Assert(err == nil, "C12/source-start-registers-handler")
+	}
+	if verifrt.Bool("managerStarted") {
+		src.blockNewRegistrations()
+	}
+	inf := &vRegInformer{failAt: verifrt.IntRange("registrationFailsAt", 0, n)}
+	err := src.handleNewInformer(inf)
+	if inf.failAt == 0 {
+		verifrt.Assert(err == nil && inf.added == n, "C12/every-started-informer-got-the-handlers")
+		verifrt.Reach("handlers-registered")
+	} else {
+		verifrt.Assert(err != nil, "C12/failed-handler-registration-is-reported")
+		verifrt.Reach("registration-failed")
+	}
+}
